@@ -80,4 +80,96 @@ theorem env_leak_diverges :
     (execBlock exCfg leakyH 11 exN []).2.log ≠ (execBlock exCfg leakyH 22 exN []).2.log := by
   decide
 
+/-! ### a concrete application that IS `AllEnvFree`, on two nodes with different environments
+
+  The environment type is `Nat` (the node's own address, as for `leakyH`), so the programs COULD
+  consult it; none does. Validate burns gas and refuses transaction 0; ProcessCheck reads key 1 and
+  writes key 3; ProcessDeliver reads the counter under key 1, adds the transaction, writes key 2 and
+  fails for transaction 9 after its writes; the fee step reads the gas counter; a BeginBlock hook
+  records the height under key 8 and an EndBlock hook copies key 1 to key 9; the block gas limit
+  is 10000. -/
+
+def detH : Handlers Nat Nat Nat Nat Nat Nat Nat :=
+  { hash := id,
+    validate := fun tx => .burn 5 (if tx = 0 then .fail else .ret ()),
+    check := fun tx => .get 1 (fun _ => .set 3 tx (fun _ => .ret tx)),
+    deliver := fun tx => .get 1 (fun r => match r with
+      | .val v => .set 1 (v.getD 0 + tx) (fun _ => .set 2 tx (fun _ =>
+          if tx = 9 then .fail else .ret tx))
+      | .errGas => .fail),
+    fee := fun _ g0 => .gas (fun g => .ret (g - g0)),
+    begin := fun h => [(true, .set 8 h (fun _ => .ret ()))],
+    endb := fun _ => [(true, .get 1 (fun r => match r with
+      | .val (some v) => .set 9 v (fun _ => .ret ())
+      | _ => .ret ()))],
+    gasLimit := 10000 }
+
+def detN : Node Nat Nat Nat Nat Nat Nat :=
+  { tree := Tree.empty ⟨1, 0, 0⟩, dlv := Ov.fresh 10000, chk := Ov.fresh 10000, vol := fun _ => none,
+    idx := [], aim := .check, height := 0, closed := false }
+
+theorem det_envFree : AllEnvFree detH := by
+  refine ⟨fun tx => ⟨?_, ?_, ?_, fun g => ?_⟩, fun h => ⟨?_, ?_⟩⟩
+  · simp only [detH, Prog.EnvFree]
+    split <;> simp [Prog.EnvFree]
+  · simp [detH, Prog.EnvFree]
+  · simp only [detH, Prog.EnvFree]
+    intro r
+    split
+    · intro _ _
+      split <;> simp [Prog.EnvFree]
+    · trivial
+  · simp [detH, Prog.EnvFree]
+  · intro hk hm
+    simp only [detH, List.mem_singleton] at hm
+    subst hm
+    simp [Prog.EnvFree]
+  · intro hk hm
+    simp only [detH, List.mem_singleton] at hm
+    subst hm
+    simp only [Prog.EnvFree]
+    intro r
+    split <;> simp [Prog.EnvFree]
+
+/-- `execBlocks_env_independent` applied: the nodes with addresses 11 and 22 (the two that disagree
+    under `leakyH`) run the history `[[5, 9, 0], [7, 5]]` to the same node and the same outputs -/
+theorem env_independent_instance :
+    execBlocks exCfg detH 11 detN [[5, 9, 0], [7, 5]] = execBlocks exCfg detH 22 detN [[5, 9, 0], [7, 5]] :=
+  execBlocks_env_independent exCfg detH det_envFree detN [[5, 9, 0], [7, 5]] 11 22
+
+/-- … and what both compute: block 1 has a success, a failure after partial writes (9) and a
+    refusal (0); block 2 has a success and a replay of 5 (recorded response, nothing runs); the two
+    commit logs are the same concrete lists on both nodes -/
+theorem env_independent_facts :
+    (execBlocks exCfg detH 11 detN [[5, 9, 0], [7, 5]]).2.map (fun o => (o.results, o.log)) =
+      [([⟨true, some 5, 25⟩, ⟨false, none, 27⟩, ⟨false, none, 0⟩],
+        [.set 8 1, .set 1 5, .set 2 5, .set 9 5, .save]),
+       ([⟨true, some 7, 25⟩, ⟨true, some 5, 25⟩],
+        [.set 8 2, .set 1 12, .set 2 7, .set 9 12, .save])] ∧
+    (execBlocks exCfg detH 22 detN [[5, 9, 0], [7, 5]]).2.map (fun o => (o.results, o.log)) =
+      [([⟨true, some 5, 25⟩, ⟨false, none, 27⟩, ⟨false, none, 0⟩],
+        [.set 8 1, .set 1 5, .set 2 5, .set 9 5, .save]),
+       ([⟨true, some 7, 25⟩, ⟨true, some 5, 25⟩],
+        [.set 8 2, .set 1 12, .set 2 7, .set 9 12, .save])] := by
+  decide +kernel
+
+/-- the same two blocks as ABCI calls with mempool checks in between -/
+def detCalls : List (Call Nat) :=
+  [.check 4, .begin, .deliver 5, .check 0, .deliver 9, .endb, .commit [5, 9], .check 5,
+   .begin, .deliver 7, .endb, .commit [7]]
+
+/-- `runCalls_env_independent` applied -/
+theorem env_independent_calls_instance :
+    runCalls exCfg detH 11 ⟨detN, []⟩ detCalls = runCalls exCfg detH 22 ⟨detN, []⟩ detCalls :=
+  runCalls_env_independent exCfg detH det_envFree ⟨detN, []⟩ detCalls 11 22
+
+theorem env_independent_calls_facts :
+    (runCalls exCfg detH 11 ⟨detN, []⟩ detCalls).2 =
+      [.checked true, .none, .tx ⟨true, some 5, 25⟩, .checked false, .tx ⟨false, none, 27⟩, .none,
+       .committed [.set 8 1, .set 1 5, .set 2 5, .set 9 5, .save], .checked false,
+       .none, .tx ⟨true, some 7, 25⟩, .none,
+       .committed [.set 8 2, .set 1 12, .set 2 7, .set 9 12, .save]] ∧
+    (runCalls exCfg detH 22 ⟨detN, []⟩ detCalls).2 = (runCalls exCfg detH 11 ⟨detN, []⟩ detCalls).2 := by
+  decide +kernel
+
 end OLP.Props.C01
